@@ -70,7 +70,7 @@ func runZeta(c *fw.Ctx) {
 		evalZeta(b, float64(cs.Index-300))
 		b.flush(cs)
 	})
-	c.Cases("zeta.sweep", c.N(1000, 30000), func(cs *fw.Case) {
+	c.Cases("zeta.sweep", c.N(1000, 15000), func(cs *fw.Case) {
 		b := &rec{}
 		for i := 0; i < 8; i++ {
 			evalZeta(b, zetaSweepS(cs.R))
